@@ -92,6 +92,21 @@ NETS = {
             ("pa", {"PS-A": 0.25, "PS-B": 0.25, "PS-C": -0.5}, 9.3),
         ],
     },
+    # N7: currents that cancel: a feeder-unbalance limit |I_A - I_B| on two same-phase stations and a tight
+    # neutral-current limit on the wye panel - raising ONE station is infeasible where raising two or three
+    # together is feasible (joint moves must not replace one-at-a-time moves)
+    "N7": {
+        "stations": {
+            "PS-A": (("fin", F6), 208, 30),
+            "PS-B": (("cont", 0, 32), 208, 30),
+            "PS-C": (("fin", F8), 208, 150),
+        },
+        "constraints": [
+            ("unb", {"PS-A": 1, "PS-B": -1}, 5.3),
+            ("la", {"PS-A": 1, "PS-B": 1, "PS-C": -1}, 70.3),
+            ("lc", {"PS-C": 1}, 25.1),
+        ],
+    },
     # N6: finite-rate EVSEs only (the sorted algorithms' decisions are then level choices, never bisection results)
     "N6": {
         "stations": {
